@@ -323,6 +323,7 @@ def inv_worker(chunk):
     import shutil
 
     res = []
+    reruns = 0
     with Scratch("c09i-") as d:
         shutil.copytree(chunk[0][0], d / "db")
         ctx = make_ctx(d / "db" / "pages.db")
@@ -330,7 +331,8 @@ def inv_worker(chunk):
             for n, (_, hid, hist, rendering, expected) in enumerate(chunk):
                 got = inv_run_one(ctx, "Inv %s" % hid, hist, rendering)
                 again = None
-                if expected is not None and got != expected:
+                if expected is not None and got != expected and reruns < 3:
+                    reruns += 1
                     shutil.copytree(chunk[0][0], d / ("f%d" % n))
                     f = make_ctx(d / ("f%d" % n) / "pages.db")
                     try:
@@ -379,9 +381,9 @@ def invocation_histories(o, tier, gen, demo):
             exp = [inv_render(x) if x["k"] != "page" else "" for x in c["out"]]
             if "page" in c["hist"]:
                 rs = ("calls",)
-            elif thorough or len(c["hist"]) == 2:
+            elif len(c["hist"]) <= (3 if thorough else 2):
                 rs = INV_RENDERINGS
-            else:       # quick: the longer histories take the renderings in turn
+            else:       # the longer histories take the renderings in turn
                 rs = (INV_RENDERINGS[n % len(INV_RENDERINGS)],)
             for r in rs:
                 items.append((dbdir, "%d-%s" % (n, r), c["hist"], r, exp))
@@ -527,13 +529,59 @@ def run(tier: str) -> int:
     return o.finish()
 
 
+def inv_trace(histories):
+    """histories = [[event, ...], ...] in the record shape of ContextInvoke!Out -> verdicts of Trace_ContextInvoke."""
+    with Scratch("c09it-") as dd:
+        tf = dd / "h.json"
+        tf.write_text(json.dumps(histories))
+        rv = tlc("Trace_ContextInvoke", "t.cfg", cfg_text="SPECIFICATION TSpec\nINVARIANT Emit\nCHECK_DEADLOCK FALSE\n",
+                 workers=1, env={"TRACE_FILE": str(tf)}, timeout=600)
+    return sorted(rv.cases, key=lambda c: c["i"])
+
+
+def inv_record(hist, rendering="calls"):
+    """Run one history on a fresh real context and abstract the observed outputs."""
+    with Scratch("c09ir-") as d:
+        (d / "base").mkdir()
+        inv_populate(d / "base" / "pages.db")
+        (got, _), = inv_worker([(d / "base", "r", hist, rendering, None)])
+    return got, [inv_abstract(k, t) for k, t in zip(hist, got)]
+
+
 def replay(path: str) -> int:
     v = json.loads(Path(path).read_text())
     print(json.dumps(v, indent=1)[:2500])
+    case = v.get("case", {})
+    if str(case.get("origin", "")).startswith("I/"):
+        common.use_repo()
+        hist = case["history"]
+        got, events = inv_record(hist, case.get("rendering", "calls"))
+        vd = inv_trace([events])[0]
+        print("re-run on a fresh context:", got)
+        print("Trace_ContextInvoke: events contradicting the specification:", vd["bad"], "| EnvKeptOnAbort explains the run:", vd["keptExplains"])
+        return 1 if vd["bad"] else 0
     return 1
 
 
 def selftest() -> int:
     r = tlc("Gen_Context", "Demo_Context_asbuilt.cfg", workers=1, check=False)
     print("as-built design violates NonInterference in the model:", bool(r.invariant_violated))
-    return 0 if r.invariant_violated else 1
+    d = tlc("Gen_ContextInvoke", "Demo_ContextInvoke_envkept.cfg", workers=1, check=False)
+    print("EnvKeptOnAbort violates MeetsDemand in the model:", bool(d.invariant_violated))
+    common.use_repo()
+    hist = ["nomod", "bump", "bump"]
+    got, events = inv_record(hist)
+    corrupt = json.loads(json.dumps(events))
+    corrupt[2]["v"] = "2"          # what a context that keeps the environment of the aborted invocation would show
+    wrongkind = json.loads(json.dumps(events))
+    wrongkind[1]["res"] = "err"
+    vds = inv_trace([events, corrupt, wrongkind])
+    print("recorded", got, "->", [(x["bad"], x["keptExplains"]) for x in vds])
+    ok = (vds[0]["bad"] == [] and vds[1]["bad"] == [3] and vds[1]["keptExplains"] is True
+          and vds[2]["bad"] == [2] and vds[2]["keptExplains"] is False)
+    # G side: a corrupted expectation is rejected by the comparison
+    exp_ok = [inv_render(x) for x in events]
+    print("rendering of the recorded events equals the observed text:", exp_ok == got)
+    ok = ok and exp_ok == got and bool(r.invariant_violated) and bool(d.invariant_violated)
+    print("selftest", "ok" if ok else "FAILED")
+    return 0 if ok else 1
